@@ -91,7 +91,7 @@ Variables (name:fname) (p:nat) (hdr:list byte).
 Let header := params_to_text BSgen.Consts.version (N.of_nat p) ++ hdr.
 Hypothesis Hh : (len header <= 65535)%N.
 
-(* the operations of a session on one handle: what the types of the public API admit (timestamps are u64) *)
+(* the operations of a session on one handle: what the types of the public API allow (timestamps are u64) *)
 Inductive sess_op : op -> Prop :=
 | so_push ts pay : (ts < 2^64)%N -> sess_op (OPush ts pay)
 | so_read lo hi : sess_op (OReadAll lo hi)
